@@ -32,6 +32,7 @@ for ((k=start; k<n; k++)); do
     cp "$VERIF/known_findings.json" "$S/root/" 2>/dev/null
     VERIF_RUNS="$runs" VERIF_REPO="$S/repo" VERIF_ROOT="$S/root" timeout 900 "$VERIF/check" "$prop" quick >"$S/check.log" 2>&1; st=$?
     if [ $st -eq 1 ]; then cls=$(grep -m1 '^violation' "$S/check.log" | sed 's/ occurrences.*//' | cut -c1-120); status="caught:$prop $cls"; break; fi
+    if [ $st -ne 0 ] && grep -q "did not come back within" "$S/check.log"; then status="caught:$prop hang (watchdog, exit $st)"; break; fi
     if [ $st -ne 0 ]; then status="harness-exit-$st:$prop"; break; fi
   done
   printf '%d\t%s\t%s\n' $k "$status" "$desc" >> "$out"
